@@ -39,6 +39,7 @@ var shim = map[string][2]string{
 	"context":                        {"context", base + "mcontext"},
 	"golang.org/x/sync/semaphore":    {"semaphore", base + "msem"},
 	"golang.org/x/sync/errgroup":     {"errgroup", base + "merrgroup"},
+	"golang.org/x/sync/singleflight": {"singleflight", base + "msingleflight"},
 	"math/rand":                      {"rand", base + "mrand"},
 	// the REST daemon of the block relay would open a TCP listener per constructed service
 	"github.com/attestantio/go-block-relay/services/daemon/rest": {"restdaemon", base + "stubs/restdaemon"},
